@@ -358,6 +358,7 @@ func RunScenario(t *testing.T, sc *Scenario, tape []int32) *RunResult {
 	res.Log = lg
 	rc := &runCtx{sc: sc, launches: map[string]int{}, tmp: tmp}
 	world := simos.NewWorld(rc.resolve)
+	world.Strip = tmp + "/"
 	simos.W = world
 	res.World = world
 	simrand.Reset()
